@@ -75,6 +75,9 @@ class C09(Property):
             cases.append(Case("faultsched " + " ".join(toks), tags=("read", tag, "kind-" + kind)))
 
         # ---- read side -------------------------------------------------------------------------
+        # from_path on files that open but cannot be read (the file system itself is the faulty reader)
+        for what in ("mem", "dir"):
+            cases.append(Case("pathfault " + what, corr=False, tags=("read", "from_path-unreadable")))
         for f in bundled_files():
             data = open(f, "rb").read()
             small = len(data) <= 1024
